@@ -10,3 +10,14 @@ let () = register "walkoracle" (fun () ->
   match min_wfd_model es s t fl kmax with
   | None -> print_endline "NONE"
   | Some k -> Printf.printf "%d\n" (int_of_nat k))
+(* with a user ignore list: WalkOracle.min_wfd_model_ign
+   walkoracleign <nE (u v)..> <s> <t> <nIgn (u v)..> <nCap (u v c)..> <nF (u v f)..> <kmax>  ->  "NONE" | "<k>"
+   (Cap: how often a walk may pass an ignored edge -- the model's repetition cap) *)
+let () = register "walkoracleign" (fun () ->
+  let pr () = let u = next_n () in let v = next_n () in (u, v) in
+  let tr () = let e = pr () in let x = next_nat () in (e, x) in
+  let es = next_list pr in let s = next_n () in let t = next_n () in
+  let ign = next_list pr in let capl = next_list tr in let fl = next_list tr in let kmax = next_nat () in
+  match min_wfd_model_ign es s t ign capl fl kmax with
+  | None -> print_endline "NONE"
+  | Some k -> Printf.printf "%d\n" (int_of_nat k))
